@@ -53,6 +53,7 @@ type RouteTarget struct {
 	SrcBucket string   // copy routes
 	SrcKey    string
 	SrcVerID  string
+	SrcEnc    bool // spell the copy source fully percent-encoded
 	Aux       string // admin routes: account name; CreateBucket: ignored (Bucket is the new name)
 	Owner     string // AdminChangeBucketOwner: new owner
 }
@@ -103,6 +104,14 @@ func withVer(qs []s3c.KV, t RouteTarget) []s3c.KV {
 	return qs
 }
 func copySource(t RouteTarget) string {
+	if t.SrcEnc {
+		// the same source spelled with every reserved character escaped
+		s := t.SrcBucket + "/" + strings.ReplaceAll(s3c.EncPath(t.SrcKey), "/", "%2F")
+		if t.SrcVerID != "" {
+			s += "%3FversionId%3D" + t.SrcVerID
+		}
+		return s
+	}
 	s := t.SrcBucket + "/" + s3c.EncPath(t.SrcKey)
 	if t.SrcVerID != "" {
 		s += "?versionId=" + t.SrcVerID
